@@ -481,6 +481,14 @@ def check_cutoff(inp) -> list:
         i, j = np.unravel_index(np.argmax(np.abs(fc.distances - ref)), ref.shape)
         out.append(f"minimum-image distance wrong for atoms ({i},{j}): code {fc.distances[i, j]:.6f}, exhaustive {ref[i, j]:.6f}")
         return out
+    # the same crystal with every atom written with its own integer offset (coordinates in [-2, 3))
+    off = np.random.default_rng(inp.get("seed", 0) + 5).integers(-2, 3, size=cr.positions.shape).astype(float)
+    cr_off = Crystal(cr.name, cr.lattice, cr.positions + off, cr.numbers, cr.n_lp_expected, {})
+    dev = float(np.abs(FCCutoff(cr_off.atoms(), cutoff=1.0).distances - ref).max())
+    if dev > 1e-6:
+        out.append(f"minimum-image distances change (by {dev:.4f}) when atoms are written with integer offsets of their "
+                   f"fractional coordinates")
+        return out
     vals = np.unique(np.round(ref[ref > 1e-6], 6))
     cuts = [float((a + b) / 2) for a, b in zip(vals[:-1], vals[1:])] + [float(vals[-1] + 0.5)] if len(vals) else []
     sel = inp.get("cut_indices")
